@@ -47,6 +47,20 @@ def replay(c):
             m2 = Server.remove_alert_word(msg) if 'alert' in msg.lower() else msg
             back = MessageInterface.parse_bid(m2, seat.formal_name)
             return back is not bid, f'{msg!r} parsed as {back}, built from {bid}'
+        if k == 'sequence':
+            bad = []
+            back = None
+            for b in c['calls']:
+                back = MessageInterface.parse_bid(Client.create_bid_message(Bid(b), 'North'), 'North')
+            if back is not Bid(c['calls'][1]):
+                bad.append(f'second call {Bid(c["calls"][1])} parsed as {back} after {Bid(c["calls"][0])}')
+            cb = None
+            for r, s in c['cards']:
+                card = Card(r, Suit(s))
+                cb = MessageInterface.parse_card(f'North plays {Client.card_str(card)}', Player.N)
+            if cb != Card(c['cards'][1][0], Suit(c['cards'][1][1])):
+                bad.append(f'second card parsed as {cb}')
+            return bool(bad), '; '.join(bad)
         if k == 'card':
             seat, card = Player(c['seat']), Card(c['rank'], Suit(c['suit']))
             txt = Client.card_str(card) if c['notation'] == 'rank-suit' else str(card)
